@@ -8,7 +8,7 @@
 EXTENDS Cache, Json
 
 VARIABLES l
-tvars == <<ring, hotId, size, snapshotSize, snapObjSize, snapshotting, th, amap, lost, strayed, cnt, nextId, hist, l>>
+tvars == <<ring, hotId, size, snapshotSize, snapObjSize, snapshotting, th, amap, lost, strayed, ent, cnt, nextId, hist, l>>
 
 Trace == ndJsonDeserialize("trace.ndjson")
 N == Len(Trace)
@@ -50,16 +50,16 @@ TFinal == /\ l <= N /\ Trace[l].ev = "final"
           /\ LET acc == Accounted - LostAll      \* bytes of values and keys held after the final reads
                  lst == lost.hot + lost.snap + LostAll
              IN IF Reported = acc
-                THEN PrintT(<<"@@EXACT", Trace[l].tr>>)
-                ELSE PrintT(<<"@@LEAK", Trace[l].tr, Reported - acc, lst, strayed>>)
+                THEN PrintT(<<"@@EXACT", Trace[l].tr, strayed, ent.glitched>>)
+                ELSE PrintT(<<"@@LEAK", Trace[l].tr, Reported - acc, lst, strayed, ent.glitched>>)
           /\ l' = l + 1
-          /\ UNCHANGED <<hotId, size, snapshotSize, snapObjSize, snapshotting, th, amap, strayed, cnt, nextId, hist>>
+          /\ UNCHANGED <<hotId, size, snapshotSize, snapObjSize, snapshotting, th, amap, strayed, ent, cnt, nextId, hist>>
 TReset == /\ l <= N /\ Trace[l].ev = "reset"
           /\ AllIdle
           /\ ring' = [s \in {1, 2} |-> Store0] /\ hotId' = 1
           /\ size' = 0 /\ snapshotSize' = 0 /\ snapObjSize' = 0 /\ snapshotting' = FALSE
           /\ amap' = [s \in {1, 2} |-> AMap0]
-          /\ lost' = [hot |-> 0, snap |-> 0] /\ strayed' = FALSE
+          /\ lost' = [hot |-> 0, snap |-> 0] /\ strayed' = FALSE /\ ent' = Ent0
           /\ l' = l + 1 /\ UNCHANGED <<th, cnt, nextId, hist>>
 
 TNext == TCall \/ TLin \/ TRet \/ TFinal \/ TReset
